@@ -164,14 +164,25 @@ class OkPeer(N.BaseHandler):
         if self.clock is not None:
             self.clock.now = self.clock.now + self.dt
 
+    early = False          # True: the reply is already pending in the socket when the client starts waiting for it
+
+    def _heads(self, sock):
+        return [h for h in bytes(sock.tx).split(b"\r\n\r\n")[:-1]]
+
     def on_read(self, sock):
-        self.reads += 1
-        reqs, _ = N.parse_requests(sock.tx)
+        heads = self._heads(sock)
         a = self.answered.get(sock.id, 0)
-        if a >= len(reqs):
+        if a >= len(heads):
+            self.reads += 1
             return b""
         self.answered[sock.id] = a + 1
+        if heads[a].startswith(b"CONNECT "):
+            return b"HTTP/1.0 200 Connection established\r\n\r\n"
+        self.reads += 1
         return b"HTTP/1.1 200 OK\r\nContent-Length: 2\r\n\r\nok"
+
+    def readable(self, sock):
+        return self.early and self.answered.get(sock.id, 0) < len(self._heads(sock))
 
 
 def _fail(msg):
@@ -198,12 +209,19 @@ def _expected(tk, tv, ck, cv, rk, rv, dt):
     return ec, er
 
 
-def _pool_body(tk, tv, ck, cv, rk, rv, t0, dt, req_level, ptk, ptv, legacy, second):
+def _pool_body(tk, tv, ck, cv, rk, rv, t0, dt, req_level, ptk, ptv, legacy, second, early=False):
+    tunnel = bool(P.get("tunnel", False))
     peer = OkPeer()
+    peer.early = early
     netw = N.install(peer)
     clock = E.install_clock(ConnClock(t0))
     peer.clock = clock
     peer.dt = dt
+    if tunnel:
+        from kit import tls as TL
+        saved_name_ok = TL._name_ok
+        TL._name_ok = lambda cert, hostname, cn: True
+        TL.install(TL.Script({}, TL.Cert("default", (("DNS", "*"),))), "ssl", True)
     try:
         total, connect, read = _val(tk, tv), _val(ck, cv), _val(rk, rv)
         if legacy:
@@ -212,12 +230,20 @@ def _pool_body(tk, tv, ck, cv, rk, rv, t0, dt, req_level, ptk, ptv, legacy, seco
             tk, ck, rk, rv = 1, 2, 2, cv
         else:
             to = Timeout(total=total, connect=connect, read=read)
+        def make_pool(t):
+            if tunnel:
+                # https through an http proxy: the TCP connect to the proxy and the CONNECT exchange happen inside urlopen,
+                # before _make_request — they are the connect phase of THIS request
+                from urllib3 import ProxyManager
+                pm = ProxyManager("http://proxy.example:3128", timeout=t, cert_reqs="CERT_NONE")
+                return pm.connection_from_url("https://h/")
+            return HTTPConnectionPool("h", 80, timeout=t)
         if req_level:
             pool_to = Timeout(total=_val(ptk, ptv), connect=1, read=1)     # must be fully overridden
-            pool = HTTPConnectionPool("h", 80, timeout=pool_to)
+            pool = make_pool(pool_to)
             kw = {"timeout": to}
         else:
-            pool = HTTPConnectionPool("h", 80, timeout=to)
+            pool = make_pool(to)
             kw = {}
         ec, er = _expected(tk, tv, ck, cv, rk, rv, dt)
         exc = None
@@ -226,8 +252,10 @@ def _pool_body(tk, tv, ck, cv, rk, rv, t0, dt, req_level, ptk, ptv, legacy, seco
         except Exception as e:
             exc = e
         dial = netw.dials[0]
-        if not (dial[1] is ec or dial[1] == ec):
-            return _fail("connect phase timeout %r, expected %r" % (dial[1], ec))
+        from urllib3.util.timeout import _DEFAULT_TIMEOUT
+        dial_to = None if dial[1] is _DEFAULT_TIMEOUT else dial[1]       # "socket default" sentinel = no timeout set here
+        if not (dial_to is ec or dial_to == ec):
+            return _fail("connect phase timeout %r, expected %r" % (dial_to, ec))
         sock = netw.socks[0]
         if er is not None and er == 0:
             mark("zero read budget")
@@ -280,10 +308,13 @@ def _pool_body(tk, tv, ck, cv, rk, rv, t0, dt, req_level, ptk, ptv, legacy, seco
     finally:
         N.uninstall()
         E.uninstall_clock()
+        if tunnel:
+            TL.uninstall()
+            TL._name_ok = saved_name_ok
 
 
 def c19_pool(tk: int, tv: int, ck: int, cv: int, rk: int, rv: int, t0: int, dt: int, req_level: bool, ptk: int,
-             ptv: int, legacy: bool, second: bool) -> bool:
+             ptv: int, legacy: bool, second: bool, early: bool) -> bool:
     """
     pre: 1 <= tk <= 2 and 0 <= ck <= 2 and 0 <= rk <= 2
     pre: tv > 0 and cv > 0 and rv > 0 and ptv > 0 and 1 <= ptk <= 2
@@ -291,7 +322,7 @@ def c19_pool(tk: int, tv: int, ck: int, cv: int, rk: int, rv: int, t0: int, dt: 
     pre: legacy == P.legacy and req_level == P.req_level
     post: _
     """
-    return run(_pool_body, tk, tv, ck, cv, rk, rv, t0, dt, req_level, ptk, ptv, legacy, second)
+    return run(_pool_body, tk, tv, ck, cv, rk, rv, t0, dt, req_level, ptk, ptv, legacy, second, early)
 
 
 def _unit_float_body(tv, rv, dt):
@@ -334,6 +365,9 @@ def JOBS(tier):
         for req_level in (False, True):
             jobs.append({"func": "c19_pool", "part": {"legacy": legacy, "req_level": req_level}, "timeout": t,
                          "path_timeout": 60})
+            if not legacy:
+                jobs.append({"func": "c19_pool", "part": {"legacy": legacy, "req_level": req_level, "tunnel": True}, "timeout": t,
+                             "path_timeout": 60})
     return jobs
 
 
@@ -341,7 +375,8 @@ EVIDENCE = {
     "bounds": {"quick": "unit: total/connect/read each unset|None|any positive int (unbounded), clock samples any ints t0<=t1; floats: "
                         "any finite positive total/read/elapsed; invalid values {int<=0 in -3..0, True, False, str, object}; pool "
                         "level: same symbolic ints through HTTPConnectionPool.urlopen on the in-memory net, pool- vs request-level "
-                        "placement, legacy number, second request on the reused connection",
+                        "placement, legacy number, second request on the reused connection, reply already pending when the wait starts "
+                        "or not; the same for https through an http proxy (TCP connect + CONNECT exchange happen before _make_request)",
                "thorough": "same, larger budget"},
     "outside": ["NaN/inf timeouts", "non-monotone clocks", "Timeout(total=<sentinel>)"],
     "stubs": ["time.monotonic inside util.timeout -> scripted symbolic samples", "in-memory net"],
